@@ -164,7 +164,13 @@ ValueCastForms == {"v_m", "v_mc", "v_c", "v_cc", "v_r", "v_rc"}
 (* one public call, as the driver performs it *)
 FormKind(f) == IF f = "rv" THEN "move" ELSE "copy"     \* T&& binds to the move constructor, T&, const T&, const T&& to the copy constructor
 
-Run(op, k, g) ==
+(* round 4: any b(e) / b = e for an any expression e of category g.cat.  xany.hpp: the perfect-forwarding constructor and
+   operator= are constrained with enable_if<!is_same<decay_t<ValueType>, any>>, so overload resolution sees only
+   any(const any&), any(any&&) / operator=(const any&), operator=(any&&): any&& is selected for a non-const rvalue only *)
+Selected(op, g) == IF op = "ConstructFrom" THEN (IF g.cat = "rv" THEN "MoveConstruct" ELSE "CopyConstruct")
+                   ELSE IF op = "AssignFrom" THEN (IF g.cat = "rv" THEN "MoveAssign" ELSE "CopyAssign")
+                   ELSE op
+Run0(op, k, g) ==
     LET M0 == StartG(g) IN
     CASE op = "DefaultConstruct" -> [M0 EXCEPT !.vt[k] = "null"]
       [] op = "Construct" ->
@@ -223,6 +229,8 @@ Res(op, k, g, M0, M) ==
                                ELSE [NoRes EXCEPT !.id = M0.sto[k], !.v = g.v]
            [] OTHER -> NoRes
 
+Run(op, k, g) == Run0(Selected(op, g), k, g)
+
 ----------------------------------------------------------------------------
 (* abstraction to L1 *)
 RAWc == -2
@@ -265,6 +273,11 @@ NCopyConstruct == \E k \in Anys, f \in Fuses, af \in AFuses, j \in Anys : Do("Co
 NMoveConstruct == \E k \in Anys, f \in Fuses, j \in Anys : Do("MoveConstruct", k, [j |-> j, fuse |-> f])
 NCopyAssign  == \E k \in Anys, f \in Fuses, af \in AFuses, j \in Anys : Do("CopyAssign", k, [j |-> j, fuse |-> f, afuse |-> af])
 NMoveAssign  == \E k \in Anys, f \in Fuses, j \in Anys : Do("MoveAssign", k, [j |-> j, fuse |-> f])
+SrcCatsAll == {"lv", "clv", "rv", "crv"}
+NConstructFrom == \E k \in Anys, f \in Fuses, af \in AFuses, j \in Anys, c \in SrcCatsAll :
+                    (c = "rv" => af = 0) /\ Do("ConstructFrom", k, [j |-> j, cat |-> c, fuse |-> f, afuse |-> af])
+NAssignFrom  == \E k \in Anys, f \in Fuses, af \in AFuses, j \in Anys, c \in SrcCatsAll :
+                    (c = "rv" => af = 0) /\ Do("AssignFrom", k, [j |-> j, cat |-> c, fuse |-> f, afuse |-> af])
 NSwap        == \E k \in Anys, f \in Fuses, j \in Anys : Do("Swap", k, [j |-> j, fuse |-> f])
 NStdSwap     == \E k \in Anys, f \in Fuses, j \in Anys : Do("StdSwap", k, [j |-> j, fuse |-> f])
 NAReset      == \E k \in Anys, f \in Fuses : Do("AReset", k, [fuse |-> f])
@@ -278,6 +291,7 @@ NCast        == \E k \in Anys, f \in Fuses, t \in CastTargets, fm \in CastFormsA
 NSetVia      == \E k \in Anys, f \in Fuses, t \in Types, v \in Vals : Do("SetVia", k, [t |-> t, v |-> v, fuse |-> f])
 
 Next == \/ NDefaultConstruct \/ NConstruct \/ NAssignValue \/ NCopyConstruct \/ NMoveConstruct \/ NCopyAssign \/ NMoveAssign
+        \/ NConstructFrom \/ NAssignFrom
         \/ NSwap \/ NStdSwap \/ NAReset \/ NAClear \/ NDestroy \/ NDestroyIf \/ NHasValue \/ NEmpty \/ NType \/ NCast \/ NSetVia
 
 Init ==
@@ -308,7 +322,7 @@ StepRefines ==
 Refines == [][StepRefines]_ivars
 
 (* the code leaves a moved-from any empty (one of the answers L1 allows) *)
-MovedFromIsEmpty == [][(last'.op \in {"MoveConstruct", "MoveAssign"} /\ last'.a.j # last'.k) => vt'[last'.a.j] = "null"]_ivars
+MovedFromIsEmpty == [][(Selected(last'.op, last'.a) \in {"MoveConstruct", "MoveAssign"} /\ last'.a.j # last'.k) => vt'[last'.a.j] = "null"]_ivars
 
 (* S->C: every transition (canonical pre-state, call, and the shape of what the model predicts)
    is written as one JSON line; scripts for the real code are built from them *)
